@@ -255,7 +255,7 @@ Definition noad (st : stmt) : Prop := match st with SAD _ _ _ => False | _ => Tr
 
 Definition st_post (p : chain) (l : layer) (l' : layer) (contrib : nat -> sig -> list rclause) : Prop :=
   Inv p l' /\ extA (l :: p) (l' :: p) /\
-  forall fuel s, abs fuel (l' :: p) s = abs fuel (l :: p) s ++ contrib fuel s.
+  forall fuel s, is_user s -> abs fuel (l' :: p) s = abs fuel (l :: p) s ++ contrib fuel s.
 
 Lemma sig_eqb_sym : forall a b, sig_eqb a b = sig_eqb b a.
 Proof.
@@ -291,7 +291,7 @@ Proof.
                   (fun k a0 H => ltac:(discriminate H)) (or_introl (ex_intro _ f eq_refl))) as H.
     destruct H as (I2 & Hx & Hfrm & Hd & Hdo & Hg & Hfr & Hsz & _).
     unfold st_post; splits; [exact I2|exact Hx|].
-    intros fuel s. simpl specf.
+    intros fuel s _. simpl specf.
     apply (abs_after_define fuel p l _ (FU f, length a) (size (l :: p)) (RFact a pr) I Hx Hd Hdo).
     unfold render_clause. rewrite Hg. reflexivity.
   - (* clause *)
@@ -311,7 +311,7 @@ Proof.
     assert (Hx02 : extA (l :: p) (add_define p (fst (app_node p l1 (NClause (FU f) a None bn vc None))) (FU f, length a) (size (l1 :: p)) :: p)).
     { intros j Hj. rewrite Hx; [apply Hx01; exact Hj|apply Hfrm1; exact Hj]. }
     unfold st_post; splits; [exact I2|exact Hx02|].
-    intros fuel s. simpl specf.
+    intros fuel s _. simpl specf.
     rewrite (abs_after_define fuel p l1 _ (FU f, length a) (size (l1 :: p))
                (RClause a None (rspec fuel b) vc false) I1 Hx Hd Hdo).
     + f_equal. rewrite !abs_defs. rewrite Hdefs1. symmetry.
@@ -325,6 +325,6 @@ Proof.
     destruct Hah as (I1 & Hext1 & Hfrm1 & Hdefs1 & _).
     assert (Hx01 : extA (l :: p) (l1 :: p)) by (apply extN_extA; apply Hext1).
     unfold st_post; splits; [exact I1|exact Hx01|].
-    intros fuel s. simpl. rewrite app_nil_r. rewrite (abs_defs fuel (l1 :: p)), Hdefs1.
+    intros fuel s _. simpl. rewrite app_nil_r. rewrite (abs_defs fuel (l1 :: p)), Hdefs1.
     apply (abs_old_stable fuel p l (l1 :: p) s I Hx01).
 Qed.
